@@ -1574,7 +1574,7 @@ func (x *Exec) loopEntry(st *State, fr *Frame, lp *Loop, pv map[*ssa.Phi]Val) {
 		st.assume(tAnd(tCmp("<=", "(- 1)", i), tCmp("<", i, n)))
 	}
 	for _, cl := range invs {
-		st.assume(x.evalClause(st, fr, cl, nil))
+		st.assume(x.evalAssume(st, fr, cl, nil))
 	}
 	cut := &loopCut{}
 	if dec != nil {
